@@ -48,26 +48,13 @@ func verifC05(x string, entry int) {
 func verifC05Node(n ast.Node, size int, clean bool, starts, ends []bool) {
 	name := verifTypeName(n)
 	pos, end := int(n.Pos()), int(n.End())
-	if clean {
-		if !(0 <= pos && pos < end && end <= size) {
-			verifFail("C05/range", name)
-		}
-		if !starts[pos] {
-			verifFail("C05/pos-not-at-token-start", name)
-		}
-		if !ends[end] {
-			verifFail("C05/end-not-at-token-end", name)
-		}
-	} else {
-		if !(0 <= pos && pos <= end && end <= size) {
-			verifFail("C05/range", name)
-		}
-	}
+	// children first: the innermost offending node is the one reported
 	prevEnd := -1
 	for _, c := range verifChildren(n) {
 		if verifIsNil(c.Node) {
 			continue
 		}
+		verifC05Node(c.Node, size, clean, starts, ends)
 		cp, ce := int(c.Node.Pos()), int(c.Node.End())
 		if cp < pos || ce > end {
 			verifFail("C05/child-outside-parent", name+"."+c.Field)
@@ -78,6 +65,24 @@ func verifC05Node(n ast.Node, size int, clean bool, starts, ends []bool) {
 			}
 			prevEnd = ce
 		}
-		verifC05Node(c.Node, size, clean, starts, ends)
+	}
+	if pos < 0 || end < 0 {
+		verifFail("C05/range", name+": invalid position")
+	}
+	if end > size {
+		verifFail("C05/range", name+": end beyond input")
+	}
+	if clean {
+		if pos >= end {
+			verifFail("C05/range", name+": empty or reversed")
+		}
+		if !starts[pos] {
+			verifFail("C05/pos-not-at-token-start", name)
+		}
+		if !ends[end] {
+			verifFail("C05/end-not-at-token-end", name)
+		}
+	} else if pos > end {
+		verifFail("C05/range", name+": reversed")
 	}
 }
